@@ -53,7 +53,22 @@ def strip_layer_ud(l):
     return l
 
 
-def compare_cases(res, files, model_obs, impl_obs, prefixes, oracle=None, what="", load_only=False):
+import re as _re
+_IMG = _re.compile(r"(\d+x\d+):[0-9a-f]{16}:([0-9a-f]{16})(:[0-9a-f]*)?")
+
+
+def canon_line(l):
+    """observation line with every image reduced to dimensions + the hash over pixels in which
+    fully transparent pixels are canonicalised (the properties compare transparent pixels equal
+    regardless of their RGB)"""
+    return _IMG.sub(lambda m: m.group(1) + ":" + m.group(2), l)
+
+
+def compare_cases(res, files, model_obs, impl_obs, prefixes, oracle=None, what="", load_only=False,
+                  spec_backed=None):
+    """`spec_backed`: name of the theorem(s) proving that the model's value on these sections IS the
+    value the property specifies; a difference there (modulo RGB of transparent pixels) is then a
+    concrete failing input of the property, not just a broken correspondence."""
     """three-way bookkeeping for a batch: correspondence (model vs impl on the chosen sections
     plus the load outcome) and the property oracle on the implementation's observation."""
     res.sections = sorted(set(res.sections) | set(prefixes))
@@ -89,6 +104,13 @@ def compare_cases(res, files, model_obs, impl_obs, prefixes, oracle=None, what="
         if load_only or io != "ok":
             continue
         a, b = vlib.section(m, prefixes), vlib.section(i, prefixes)
+        if spec_backed and [canon_line(x) for x in a] != [canon_line(x) for x in b]:
+            d = vlib.first_diff([canon_line(x) for x in a], [canon_line(x) for x in b])
+            res.oracle_failures.append({
+                "id": cid, "input_hex": data.hex(), "call": what,
+                "what": f"the implementation reports `{d[2][:300]}` where the property specifies `{d[1][:300]}` "
+                        f"(expected value computed by the Lean model, proved equal to the specification by {spec_backed})"})
+            continue
         if a != b:
             d = vlib.first_diff(a, b)
             res.corr_diffs.append({"correspondence": f"Ase model <-> public API on sections {what or prefixes}",
@@ -136,7 +158,7 @@ def run_both(files, profile="release", verbose=False, outcome_only=False):
 # ------------------------------------------------------------------------------------------
 # well-formed families
 
-def wf_routine(prefixes, gens, rule, oracle=must_load_oracle, corpus=True, extra=None):
+def wf_routine(prefixes, gens, rule, oracle=must_load_oracle, corpus=True, extra=None, spec_backed=None):
     def run(ctx, scale):
         res = Result(rule)
         rng = random.Random(ctx.seed * 7919 + scale)
@@ -163,7 +185,8 @@ def wf_routine(prefixes, gens, rule, oracle=must_load_oracle, corpus=True, extra
             if cid == "color-curve.aseprite":
                 return None      # the repository's own negative example (ICC profile)
             return oracle(cid, data, impl, model) if oracle else None
-        compare_cases(res, files, model_obs, impl_obs, prefixes, orc, what=",".join(prefixes[:4]) + ",…")
+        compare_cases(res, files, model_obs, impl_obs, prefixes, orc, what=",".join(prefixes[:4]) + ",…",
+                      spec_backed=spec_backed)
         if extra:
             extra(ctx, scale, res, files, model_obs, impl_obs)
         return res
@@ -177,11 +200,21 @@ def malformed_inputs(ctx, scale, rng):
     base = [(c, b) for c, b in vlib.corpus_files(max_size=9000)]
     gen, _ = vlib.gen_cases("struct", ctx.seed * 13 + scale, 40 if ctx.quick else 200)
     gen2, _ = vlib.gen_cases("tiles", ctx.seed * 17 + scale, 20 if ctx.quick else 100)
-    base += gen + gen2
+    leg, _, gapbad = gap_index_cases(ctx, scale, 40 if ctx.quick else 400)
+    base += gen + gen2 + leg[:20]
     n = (6000 if ctx.quick else 300000) * scale
-    files = vlib.verif_corpus()
+    files = vlib.verif_corpus() + gapbad
     files += vlib.sample_mutants(base, rng, n)
     files += vlib.noise_cases(base, rng, n // 6)
+    if not ctx.quick and scale == 1:
+        # thorough: EVERY single-field boundary mutation of every small corpus file
+        for cid, b in vlib.corpus_files(max_size=3000):
+            for o, w, kind in vlib.mutation_sites(b):
+                for v in vlib.BOUNDARY[w]:
+                    files.append((f"all/{cid}/{o}:{w}:{v}", vlib.mutate(b, o, w, v)))
+        # the deep-nesting input of D15: 65536 layers nested 65535 deep
+        chunks = [mk_layer(name=b"", ltype=1, level=min(i, 65535)) for i in range(65536)]
+        files.append(("deep/65535", mk_header(1, 1, 1) + mk_frame(chunks)))
     # de-duplicate ids
     seen = {}
     out = []
@@ -245,18 +278,42 @@ def register(pid, run, **kw):
 
 register("C01", wf_routine(STRUCT, [("struct", 300, 20000), ("plain", 100, 2000)],
          "corpus files + type-directed generated well-formed programs (all attribute ranges); "
-         "distinct = distinct structure observations of loaded sprites"))
+         "distinct = distinct structure observations of loaded sprites",
+         spec_backed="C01.decode_encode / loaded_layers / loaded_slices / loaded_tags / sprite_frameTimes and the per-chunk round trips"))
 register("C02", wf_routine(RENDER, [("render", 300, 10000), ("struct", 100, 2000)],
          "generated layer stacks (19 blend modes, opacities, hidden layers/groups, linked, tilemap, "
-         "off-canvas cels); distinct = distinct frame-image observations"))
+         "off-canvas cels); distinct = distinct frame-image observations",
+         spec_backed="C02.frameImage_spec (point-wise composition) with C03.blend_eq_ref"))
 register("C06", wf_routine(CELS, [("rgba", 120, 3000), ("gray", 120, 3000), ("indexed", 160, 4000)],
          "generated sprites in each pixel format (sparse palettes, alpha<255, all transparent-index "
-         "values, background flag, raw and zlib, links); distinct = distinct cel observations"))
+         "values, background flag, raw and zlib, links); distinct = distinct cel observations",
+         spec_backed="C06.celImage_spec / indexed_conversion / linked_cel_eq_target / absent_cel"))
 register("C08", wf_routine(TILES, [("tiles", 300, 10000)],
          "generated tilesets/tilemaps (tile sizes 1..5 non-square, all formats, aligned offsets "
-         "-3..+3 tiles, extended lookup grid); distinct = distinct tilemap/tileset observations"))
+         "-3..+3 tiles, extended lookup grid); distinct = distinct tilemap/tileset observations",
+         spec_backed="C08.tilemapImage_spec / tile_inside / tile_outside_empty / tilemap_size / tileImage_spec / tilesetImage_spec"))
+def c19_extra(ctx, scale, res, files, model_obs, impl_obs):
+    """more than 65536 layers: layer ids no longer fit the u16 cel coordinate, and the three routes
+    must still denote the same cel"""
+    if scale != 1:
+        return
+    n = 65537
+    layers = [mk_layer(name=b"") for _ in range(n)]
+    def cel(l, rgba):
+        return mk_chunk(0x2005, struct.pack("<HhhBH", l, 0, 0, 255, 0) + bytes(7) + struct.pack("<HH", 1, 1) + bytes(rgba))
+    f0 = mk_frame(layers + [cel(0, (9, 8, 7, 255)), cel(7, (1, 2, 3, 255)), cel(65535, (4, 5, 6, 255))])
+    f1 = mk_frame([cel(0, (50, 60, 70, 255)), cel(65535, (40, 50, 60, 200))])
+    big = [("manylayers/65537", mk_header(2, 2, 2) + f0 + f1)]
+    m, i = run_both(big)
+    compare_cases(res, big, m, i, CELS + RENDER, must_load_oracle, what="three routes with 65537 layers",
+                  spec_backed="the model's single cel function of (frame as u16, layer as u16)")
+    res.distribution["many-layer sprites"] = 1
+
+
 register("C19", wf_routine(CELS + RENDER + ["tilemap"], [("render", 200, 5000), ("tiles", 100, 3000)],
-         "generated sprites with frames != layers; the three cel routes, single-layer frames, tilemap images"))
+         "generated sprites with frames != layers; the three cel routes, single-layer frames, tilemap images",
+         spec_backed="the model's single cel function of (frame, layer) + C19.single_layer_frame_eq_cel / tilemap_view_cel",
+         extra=c19_extra))
 register("C04", malformed_routine(no_panic_oracle, [], "field-aware boundary mutations (single and paired) of "
          "corpus and generated files, truncations, noise, in release and release+overflow-checks+"
          "debug-assertions builds; distinct = distinct (input kind, outcome) pairs", True),
@@ -332,7 +389,8 @@ def blend_routine(laws, rule):
                 pix[cid] = (bytes.fromhex(bh), bytes.fromhex(sh))
             sub = Result()
             compare_cases(sub, files, cases, impl, ["frameimg", "celA"], usable_oracle,
-                          what=f"Frame::image of two-layer blend sprites [{profile}]")
+                          what=f"Frame::image of two-layer blend sprites [{profile}]",
+                          spec_backed="C03.blend_eq_ref (model = Aseprite's blend functions) with C02.frameImage_spec")
             for f in sub.oracle_failures + sub.corr_diffs:
                 f["build_profile"] = profile
             res.merge(sub)
@@ -369,6 +427,25 @@ def blend_routine(laws, rule):
                             "pixel": k, "mode": mode, "backdrop": b.hex(), "source": s.hex(),
                             "opacity": op, "result": r.hex(), "call": "Frame::image"})
                         break
+        # complete channel squares: every (backdrop channel, source channel) pair, all 19 modes
+        if scale == 1:
+            alphas = [(255, 255), (128, 255)] if ctx.quick else [(255, 255), (128, 255), (255, 128), (1, 254), (254, 1), (77, 200)]
+            sq = [f"GENSQUARE {mode} {ba} {sa} {lo} {co}" for mode in range(19) for (ba, sa) in alphas
+                  for (lo, co) in ([(255, 255)] if ctx.quick else [(255, 255), (200, 127)])]
+            for profile in ("release", "relchk"):
+                cases, inputs, _ = run_driver_raw(sq, profile)
+                files = [(cid, bytes.fromhex(hx)) for cid, hx in inputs]
+                impl, _ = vlib.run_impl(vlib.load_lines(files), profile)
+                sub = Result()
+                compare_cases(sub, files, cases, impl, ["frameimg"], usable_oracle,
+                              what=f"complete channel squares [{profile}]",
+                              spec_backed="C03.blend_eq_ref (model = Aseprite's blend functions)")
+                for f in sub.oracle_failures + sub.corr_diffs:
+                    f["build_profile"] = profile
+                    f["input_hex"] = f.get("input_hex", "")[:4000] + "…(256x256 square, regenerate with GENSQUARE)"
+                res.merge(sub)
+                res.evaluations += 65536 * len(files)
+            res.distribution["channel_squares"] = len(sq)
         res.distribution["modes"] = 19
         res.distribution["opacity_pairs"] = len(ops)
         res.distribution["pixels_per_sprite"] = side * side
@@ -498,6 +575,37 @@ def feature_mutants(cid, b):
     return out
 
 
+def insert_chunk(b, frame_idx, chunk):
+    """append `chunk` to frame `frame_idx` (counts and sizes adjusted)"""
+    out = bytearray(b[:128])
+    pos = 128
+    nframes = struct.unpack_from("<H", b, 6)[0]
+    for f in range(nframes):
+        nb, magic, old, dur, ph, new = struct.unpack_from("<IHHHHI", b, pos)
+        n = new if new else old
+        q = pos + 16
+        for _ in range(n):
+            q += struct.unpack_from("<I", b, q)[0]
+        body = b[pos + 16:q]
+        if f == frame_idx:
+            body += chunk
+            n += 1
+            nb += len(chunk)
+            if new:
+                new = n
+            else:
+                old = n
+        out += struct.pack("<IHHHHI", nb, magic, old, dur, ph, new) + body
+        pos = q
+    out += b[pos:]
+    return bytes(out)
+
+
+def tags_chunk(direction):
+    p = struct.pack("<H", 1) + bytes(8) + struct.pack("<HHBH", 0, 0, direction, 0) + bytes(6) + struct.pack("<I", 0) + struct.pack("<H", 1) + b"t"
+    return mk_chunk(0x2018, p)
+
+
 def c15_run(ctx, scale):
     res = Result("every documented-unsupported feature switched on, one at a time, at every position where it can "
                  "occur in corpus and generated files (pixel ratio, colour depth, profile type / gamma flag, layer type, "
@@ -508,8 +616,25 @@ def c15_run(ctx, scale):
         fs, _ = vlib.gen_cases(prof, ctx.seed * 19 + scale, (n if ctx.quick else n * 20) * scale)
         base += fs
     files = []
+    controls = []
     for cid, b in base:
         files += feature_mutants(cid, b)
+        # a tags chunk in a later frame is decoded (and then ignored): an unknown direction there
+        # must be refused as well; the same chunk with a known direction is the control
+        nframes = struct.unpack_from("<H", b, 6)[0]
+        if nframes >= 2 and not cid.endswith(".aseprite"):
+            try:
+                for fr in (1, nframes - 1):
+                    controls.append((f"ctl/latetags/{cid}#f{fr}", insert_chunk(b, fr, tags_chunk(1))))
+                    for d in (3, 255):
+                        files.append((f"feat/late-anim-dir/{cid}#f{fr}={d}", insert_chunk(b, fr, tags_chunk(d))))
+            except struct.error:
+                pass
+    if controls:
+        cm, ci = run_both(controls, outcome_only=True)
+        compare_cases(res, controls, cm, ci, [], lambda c, d, i, m: None if vlib.outcome(i) == "ok" else
+                      "control (tags chunk with a known direction in a later frame) does not load: " + vlib.outcome_detail(i),
+                      what="control", load_only=True)
     # the tileset that "survives per id": a later tileset chunk with the same id replaces it, so a
     # not-embedded tileset that is replaced is legitimately accepted -> our generator uses unique ids
     m, i = run_both(files, outcome_only=True)
@@ -529,6 +654,35 @@ register("C15", c15_run)
 
 # ------------------------------------------------------------------------------------------
 # C11: palettes
+
+def gap_index_cases(ctx, scale, n):
+    """indexed sprites over a legacy-only sparse palette with one pixel moved into a gap of the
+    palette (must be refused at load time); returns (well-formed files, their model obs, bad files)"""
+    leg, leg_model = vlib.gen_cases("legacyindexed", ctx.seed * 27 + scale, n)
+    bad = []
+    for cid, b in leg:
+        ids = set()
+        cel_sites = []
+        for kind, off, ln in vlib.walk_chunks(b):
+            p = off + 6
+            if kind in ("chunk:0004", "chunk:0011"):
+                npk = struct.unpack_from("<H", b, p)[0]
+                q, skip = p + 2, 0
+                for _ in range(npk):
+                    skip += b[q]
+                    cnt = b[q + 1] or 256
+                    ids.update(range(skip, skip + cnt))
+                    q += 2 + 3 * cnt
+            if kind == "chunk:2005" and struct.unpack_from("<H", b, p + 7)[0] == 0:
+                w, h = struct.unpack_from("<HH", b, p + 16)
+                if w * h:
+                    cel_sites.append(p + 20 + (w * h) // 2)
+        gaps = [g for g in range(0, max(ids) + 1) if g not in ids] if ids else []
+        if gaps and cel_sites:
+            for g in (gaps[0], gaps[-1]):
+                bad.append((f"gapindex/{cid}@{cel_sites[0]}={g}", vlib.mutate(b, cel_sites[0], 1, g)))
+    return leg, leg_model, bad
+
 
 def c11_extra(ctx, scale, res, files, model_obs, impl_obs):
     """indexed pixel buffers with an index outside the palette, and indexed sprites whose
@@ -551,6 +705,15 @@ def c11_extra(ctx, scale, res, files, model_obs, impl_obs):
         has_pixels = any(k in ("chunk:2005", "chunk:2023") for k, _, _ in vlib.walk_chunks(b))
         if pal_off is not None and has_pixels:
             bad.append((f"nopalette/{cid}", vlib.mutate(b, pal_off + 4, 2, 0x2006)))
+    # legacy-only (possibly sparse) palettes: a pixel index inside a gap of the palette must be refused
+    leg, leg_model, gapbad = gap_index_cases(ctx, scale, (150 if ctx.quick else 3000) * scale)
+    leg_impl, _ = vlib.run_impl(vlib.load_lines(leg))
+    compare_cases(res, leg, leg_model, leg_impl, ["palette", "pal", "format", "celA", "frameimg"], must_load_oracle,
+                  what="indexed sprites over a legacy-only palette",
+                  spec_backed="C01.oldPalette_roundtrip + C11.indexed_complete + C06.indexed_conversion")
+    bad += gapbad
+    ngap = len(gapbad)
+    res.distribution["gap-index cases"] = ngap
     if bad:
         m, i = run_both(bad)
         def orc(cid, data, impl, model):
@@ -567,7 +730,7 @@ register("C11", wf_routine(["palette", "pal", "format"], [("indexed", 150, 4000)
          "generated palettes (new-format with first index > 0, names, alpha < 255; legacy 0x0004/0x0011 with "
          "multi-packet skips and count byte 0; both chunk orders); indexed buffers with one index outside the "
          "palette at first/middle/last position; indexed sprites with the palette chunk removed",
-         extra=c11_extra))
+         extra=c11_extra, spec_backed="C01.palette_roundtrip / oldPalette_roundtrip and C11.new_palette_replaces / old_palette_keeps_existing"))
 
 
 # ------------------------------------------------------------------------------------------
@@ -876,6 +1039,18 @@ def hostile_memory_inputs(ctx, scale):
         # the same stream under a small declared size (rejected only after inflation)
         cel2 = mk_chunk(0x2005, struct.pack("<HhhBH", 0, 0, 0, 255, 2) + bytes(7) + struct.pack("<HH", 1, 1) + z)
         out.append((f"bomb-small-decl/{w}x{h}", mk_header(1, 4, 4) + mk_frame([mk_layer(), cel2])))
+    # a deflate bomb inside a tilemap cel (tiles are 4 bytes in the file, 8 in memory)
+    for side in ((2048, 2048), (4096, 4096)):
+        w, h = side
+        z = zlib.compress(bytes(w * h * 4), 9)
+        ts_px = zlib.compress(bytes(4))
+        tileset = mk_chunk(0x2023, struct.pack("<IIIHHh", 0, 2 | 4, 1, 1, 1, 1) + bytes(14) + struct.pack("<H", 0)
+                           + struct.pack("<I", len(ts_px)) + ts_px)
+        layer = mk_chunk(0x2004, struct.pack("<HHHHHHBBH", 1, 2, 0, 0, 0, 0, 255, 0, 0) + struct.pack("<H", 1) + b"T"
+                         + struct.pack("<I", 0))
+        cel = mk_chunk(0x2005, struct.pack("<HhhBH", 0, 0, 0, 255, 3) + bytes(7)
+                       + struct.pack("<HHHIIII", w, h, 32, 0x1fffffff, 0x20000000, 0x40000000, 0x80000000) + bytes(10) + z)
+        out.append((f"bomb-tilemap/{w}x{h}", mk_header(1, 4, 4) + mk_frame([tileset, layer, cel])))
     # frame-count skeletons
     for nf in (1000, 65535):
         out.append((f"frames/{nf}", mk_header(nf, 4, 4) + mk_frame([mk_layer()]) + mk_frame([]) * (nf - 1)))
@@ -1035,7 +1210,8 @@ def c07_run(ctx, scale):
         cases.update(m2)
     files += extra
     impl, _ = vlib.run_impl(vlib.load_lines(files))
-    compare_cases(res, files, cases, impl, ALL, must_load_oracle, what="whole-API observation")
+    compare_cases(res, files, cases, impl, ALL, must_load_oracle, what="whole-API observation",
+                  spec_backed="C01.decode_encode + C07.encoding_choices_irrelevant")
     groups = {}
     for cid, b in files:
         groups.setdefault(cid.rsplit("-", 1)[0], []).append((cid, b))
@@ -1070,14 +1246,14 @@ def ud_chunk(text):
 def c10_sequences(maxlen):
     """all sequences over the 8 chunk kinds up to length maxlen that satisfy the quantifier's side
     conditions; yields (kinds, expected attachments)"""
-    kinds = ["layer", "cel", "slice", "tags2", "oldpal", "pal", "ign", "ud"]
+    kinds = ["layer", "cel", "slice", "tags2", "oldpal", "pal", "ign", "ud", "ude"]
     def rec(seq, ctx, used, nlayers, ncels, pending_tags, depth):
         if seq:
             yield list(seq)
         if depth == 0:
             return
         for k in kinds:
-            if k == "ud":
+            if k in ("ud", "ude"):
                 if ctx is None:
                     continue
                 tgt = ctx
@@ -1150,9 +1326,13 @@ def c10_build(seq):
             chunks.append(mk_chunk(0x2019, struct.pack("<III", 1, 0, 0) + bytes(8) + struct.pack("<HBBBB", 0, 1, 2, 3, 255)))
         elif k == "ign":
             chunks.append(mk_chunk(0x2006, bytes(20)))
-        elif k == "ud":
-            text = f"u{idx}"
-            chunks.append(ud_chunk(text))
+        elif k in ("ud", "ude"):
+            if k == "ud":
+                text = f"u{idx}"
+                chunks.append(ud_chunk(text))
+            else:
+                text = None          # an empty record (flags 0): attached all the same
+                chunks.append(mk_chunk(0x2020, struct.pack("<I", 0)))
             expected[ctx] = text
             if ctx[0] == "tag":
                 ctx = ("tag", ctx[1] + 1)
@@ -1162,13 +1342,14 @@ def c10_build(seq):
 def c10_run(ctx, scale):
     res = Result("EXHAUSTIVELY every chunk sequence over {layer, cel, slice, tags(2), legacy palette, palette, ignorable, "
                  "user data} up to length 5 (quick) / 6 (thorough) in which every user-data chunk has a preceding "
-                 "attachable entity, no entity receives two records, at most 2 records follow tags(2), plus the generated "
+                 "attachable entity, no entity receives two records, at most 2 records follow tags(2) (records with text and empty "
+                 "records with flags 0), plus the generated "
                  "well-formed programs of the struct profile; oracle: each record is reported by the entity whose chunk "
                  "most recently preceded it and by no other entity; distinct = distinct sequences")
     maxlen = 5 if ctx.quick else 6
     files, exp = [], {}
     for seq in c10_sequences(maxlen):
-        if "ud" not in seq:
+        if "ud" not in seq and "ude" not in seq:
             continue
         b, expected, counts = c10_build(seq)
         cid = "seq/" + ",".join(seq)
@@ -1197,8 +1378,11 @@ def c10_run(ctx, scale):
             elif w[0] == "sprite_ud":
                 got[("sprite",)] = w[1]
         for tgt, ud in got.items():
-            want = expected.get(tgt)
-            wants = "-" if want is None else f"t:{hexname(want)},c:-"
+            if tgt in expected:
+                want = expected[tgt]
+                wants = "t:-,c:-" if want is None else f"t:{hexname(want)},c:-"
+            else:
+                wants = "-"
             if ud != wants:
                 return f"entity {tgt} reports user data {ud}, expected {wants}"
         for tgt in expected:
@@ -1210,7 +1394,8 @@ def c10_run(ctx, scale):
     res.distribution["max_length"] = maxlen
     # random longer programs from the type-directed generator (three-way via the model)
     gen = wf_routine(["layer", "celA", "celB", "celC", "slice", "tag", "sprite_ud"],
-                     [("struct", 200, 5000)], "", corpus=True)(ctx, scale)
+                     [("struct", 200, 5000)], "", corpus=True,
+                     spec_backed="C10.userData_spec / processChunk_sim with C01.userData_roundtrip")(ctx, scale)
     res.merge(gen)
     return res
 
@@ -1267,3 +1452,91 @@ def c16_run(ctx, scale):
 
 
 register("C16", c16_run, profiles=("release", "relchk"), build_failure_is_violation=True)
+
+
+# ------------------------------------------------------------------------------------------
+# C09: exhaustive forests
+
+def forests(n):
+    """all level sequences of length n: first 0, each at most one more than its predecessor"""
+    def rec(seq):
+        if len(seq) == n:
+            yield tuple(seq)
+            return
+        for l in range(0, seq[-1] + 2):
+            seq.append(l)
+            yield from rec(seq)
+            seq.pop()
+    yield from rec([0])
+
+
+def c09_run(ctx, scale):
+    maxn = 6 if ctx.quick else 8
+    res = Result(f"EXHAUSTIVELY every layer forest of 1..{maxn} layers (level of the first layer 0, each level at most "
+                 "one more than its predecessor's) x every assignment of visible flags; layer i is a group or image layer "
+                 "with an opaque 1x1 cel at pixel (i, 0); oracle (computed independently in Python): parent = nearest "
+                 "preceding smaller level, is_visible = own flag and all ancestors' flags, frame pixel i = the cel's colour "
+                 "iff the layer is visible else transparent; distinct = distinct (forest, flags) pairs; plus random deeper "
+                 "forests from the generator")
+    files, exp = [], {}
+    for n in range(1, maxn + 1):
+        for lv in forests(n):
+            for mask in range(1 << n):
+                chunks = []
+                for i in range(n):
+                    vis = (mask >> i) & 1
+                    # a layer is a group iff the next layer is its child
+                    is_group = i + 1 < n and lv[i + 1] == lv[i] + 1
+                    name = b"L%d" % i
+                    chunks.append(mk_chunk(0x2004, struct.pack("<HHHHHHBBH", vis, 1 if is_group else 0, lv[i], 0, 0, 0, 255, 0, 0)
+                                           + struct.pack("<H", len(name)) + name))
+                for i in range(n):
+                    chunks.append(mk_chunk(0x2005, struct.pack("<HhhBH", i, i, 0, 255, 0) + bytes(7) + struct.pack("<HH", 1, 1)
+                                           + bytes([10 + i, 20 + i, 30 + i, 255])))
+                cid = f"forest/{''.join(map(str, lv))}/{mask:0{n}b}"
+                files.append((cid, mk_header(1, n, 1) + mk_frame(chunks)))
+                parents, visible = [], []
+                for i in range(n):
+                    p = None
+                    if lv[i] > 0:
+                        j = i - 1
+                        while lv[j] >= lv[i]:
+                            j -= 1
+                        p = j
+                    parents.append(p)
+                    visible.append(bool((mask >> i) & 1) and (p is None or visible[p]))
+                exp[cid] = (parents, visible)
+    res.exhaustive = True
+    m, i = run_both(files, verbose=True)
+    def orc(cid, data, impl, model):
+        if vlib.outcome(impl) != "ok":
+            return "a forest did not load: " + vlib.outcome_detail(impl)
+        parents, visible = exp[cid]
+        n = len(parents)
+        for l in impl:
+            w = l.split(" ")
+            if w[0] == "layer":
+                k = int(w[1])
+                kv = dict(x.split("=", 1) for x in w[2:])
+                wantp = "-" if parents[k] is None else str(parents[k])
+                if kv["parent"] != wantp:
+                    return f"layer {k}: parent {kv['parent']}, expected {wantp}"
+                if kv["visible"] != ("1" if visible[k] else "0"):
+                    return f"layer {k}: is_visible {kv['visible']}, expected {int(visible[k])}"
+            elif w[0] == "frameimg":
+                px = bytes.fromhex(w[2].split(":")[3])
+                for k in range(n):
+                    want = bytes([10 + k, 20 + k, 30 + k, 255]) if visible[k] else bytes(4)
+                    if px[4 * k:4 * k + 4] != want:
+                        return f"frame pixel {k} is {px[4 * k:4 * k + 4].hex()}, expected {want.hex()} (layer visible={visible[k]})"
+        return None
+    compare_cases(res, files, m, i, ["layers", "layer", "frameimg"], orc, what="parents / visibility / frame image")
+    res.distribution["forests"] = len(files)
+    res.distribution["max_layers"] = maxn
+    gen = wf_routine(["layers", "layer", "frameimg"], [("forest", 150, 20000), ("render", 60, 2000)], "", corpus=False)(ctx, scale)
+    res.merge(gen)
+    res.exhaustive = True
+    return res
+
+
+register("C09", c09_run)
